@@ -10,6 +10,12 @@ import (
 )
 
 func BuildSchemaValidation(schema *openapi3.SchemaRef, validationString string, fieldInterface string) {
+	// A reference shares its Value with the referenced component (or has none yet).
+	// Usage-site validation must never rewrite the shared model itself - same as the 3.1 generator, skip references
+	if schema == nil || schema.Ref != "" || schema.Value == nil {
+		return
+	}
+
 	// Parse and apply validation rules from the Validator field
 	validationRules := strings.Split(validationString, ",")
 	for _, rule := range validationRules {
